@@ -184,7 +184,7 @@ def all_descs(max_n: int, leaf_vals: tuple = (0, 1)) -> list[Any]:
 def ref_children(node: ASTNode) -> list[tuple[ASTNode, str, int | None]]:
     """(child, field name, index) in declaration order, by direct attribute access."""
     out: list[tuple[ASTNode, str, int | None]] = []
-    for fname, is_tuple in CHILD_FIELDS[type(node)]:
+    for fname, is_tuple in CHILD_FIELDS.get(type(node), []):
         val = object.__getattribute__(node, fname)
         if is_tuple:
             for i, c in enumerate(val):
